@@ -20,10 +20,10 @@ import (
 var intrinsics map[string]intrinsic
 
 var stubList = []string{
-	"strings.{Trim,ReplaceAll,Join,Contains,ContainsRune,ContainsAny,Split,ToUpper,Fields,HasPrefix,HasSuffix,IndexByte}: byte-sequence intrinsics forking where the result length depends on data; ToUpper exact on ASCII bytes, non-ASCII bytes left unchanged",
+	"strings.{Trim,TrimSpace,ReplaceAll,Join,Contains,ContainsRune,ContainsAny,Split,ToUpper,ToLower,EqualFold,Fields,HasPrefix,HasSuffix,IndexByte,Index,LastIndex,LastIndexByte,Count}, internal/bytealg.{Count,IndexByte,Equal}: byte-sequence intrinsics forking where the result length depends on data; ToUpper exact on ASCII bytes, non-ASCII bytes left unchanged",
 	"bytes.TrimSpace: ASCII white space exact, symbolic non-ASCII bytes at the ends cut",
 	"fmt.Sprintf: re-implementation of fmt's verb handling for %s %v %d %q %#v %t %.Nf incl. Stringer/GoStringer/error dispatch into interpreted methods and %!verb(type=value) markers",
-	"fmt.Errorf, errors.New, strconv error constructors: opaque error values (texts not formatted)",
+	"fmt.Errorf: error text formatted by the Sprintf model when Error() is called; strconv error constructors: opaque error values (texts not formatted)",
 	"reflect.TypeOf: opaque",
 	"strconv.ParseFloat: syntax decided by the real strconv.special/readFloat SSA; value native for concrete text, integer-valued symbolic text exact, other symbolic digits cut",
 	"unicode.IsLetter/IsDigit: native for concrete runes, solver-side definition generated from the real range tables for symbolic runes",
@@ -45,9 +45,22 @@ func init() {
 		"strings.HasSuffix":    stringsHasSuffix,
 		"strings.IndexByte":    stringsIndexByte,
 		"bytes.TrimSpace":      bytesTrimSpace,
+		"strings.TrimSpace":    stringsTrimSpace,
+		"strings.Count":        stringsCount,
+		"strings.Index":        stringsIndex,
+		"strings.LastIndex":    stringsLastIndex,
+		"strings.LastIndexByte": stringsLastIndexByte,
+		"strings.ToLower":      stringsToLower,
+		"strings.EqualFold":    stringsEqualFold,
+		"internal/bytealg.CountString":     bytealgCount,
+		"internal/bytealg.Count":           bytealgCount,
+		"internal/bytealg.IndexByteString": stringsIndexByte,
+		"internal/bytealg.IndexByte":       stringsIndexByte,
+		"internal/bytealg.Equal":           func(in *Interp, fn *ssa.Function, args []value) value { return in.simpBool(in.strEq(mkStr(sliceBytes(args[0])), mkStr(sliceBytes(args[1])))) },
 		"fmt.Sprintf":          fmtSprintf,
-		"fmt.Errorf":           opaqueError,
-		"errors.New":           opaqueError,
+		"fmt.Errorf":           lazyErrorf,
+		"errors.New":           errorsNew,
+		"(*errors.errorString).Error": errorStringError,
 		"strconv.syntaxError":  opaqueErrorPtr,
 		"strconv.rangeError":   opaqueErrorPtr,
 		"strconv.baseError":    opaqueErrorPtr,
@@ -250,6 +263,38 @@ func (in *Interp) errorValue() value {
 }
 
 func opaqueError(in *Interp, fn *ssa.Function, args []value) value { return in.errorValue() }
+
+// lazyText is the text of an error made by fmt.Errorf, formatted (by the Sprintf model) only when
+// Error() is called: most paths never look at it. The arguments are frozen at creation.
+type lazyText struct {
+	fn   *ssa.Function
+	args []value
+}
+
+func lazyErrorf(in *Interp, fn *ssa.Function, args []value) value {
+	e := in.errorValue().(iface)
+	frozen := deepCopy(structure{args[0], args[1]}, map[interface{}]interface{}{}).(structure)
+	*(e.v.(*value)) = structure{&lazyText{fn, []value{frozen[0], frozen[1]}}}
+	return e
+}
+
+func errorsNew(in *Interp, fn *ssa.Function, args []value) value {
+	e := in.errorValue().(iface)
+	*(e.v.(*value)) = structure{args[0]}
+	return e
+}
+
+func errorStringError(in *Interp, fn *ssa.Function, args []value) value {
+	p, ok := args[0].(*value)
+	if !ok || p == nil {
+		in.targetPanic("runtime error: invalid memory address or nil pointer dereference")
+	}
+	st := (*p).(structure)
+	if lt, lazy := st[0].(*lazyText); lazy {
+		return fmtSprintf(in, lt.fn, lt.args) // not cached: a fork inside must find the same state on re-execution
+	}
+	return st[0]
+}
 
 // strconv's error constructors return *NumError
 func opaqueErrorPtr(in *Interp, fn *ssa.Function, args []value) value {
@@ -472,6 +517,169 @@ func stringsToUpper(in *Interp, fn *ssa.Function, args []value) value {
 	return mkStr(out)
 }
 
+// sliceBytes: the bytes of a string or []byte argument.
+func sliceBytes(v value) []value {
+	if b, ok := v.([]value); ok {
+		return b
+	}
+	if v == nil {
+		return nil
+	}
+	return strBytes(v)
+}
+
+// countByte: the number of bytes equal to c, as a sum of 0/1 terms.
+func (in *Interp) countByte(b []value, c value) value {
+	tt := in.tab
+	n := int64(0)
+	var sum *Term
+	for _, x := range b {
+		eq := in.simpBool(tt.Eq(in.intTerm(x, 8), in.intTerm(c, 8)))
+		switch e := eq.(type) {
+		case bool:
+			if e {
+				n++
+			}
+		case *Term:
+			one := tt.Ite(e, tt.Const(64, 1), tt.Const(64, 0))
+			if sum == nil {
+				sum = one
+			} else {
+				sum = tt.Bin(OAdd, sum, one)
+			}
+		}
+	}
+	if sum == nil {
+		return n
+	}
+	return in.simpInt(tt.Bin(OAdd, sum, tt.Const(64, uint64(n))), true)
+}
+
+func bytealgCount(in *Interp, fn *ssa.Function, args []value) value {
+	return in.countByte(sliceBytes(args[0]), args[1])
+}
+
+func stringsCount(in *Interp, fn *ssa.Function, args []value) value {
+	b, sub := strBytes(args[0]), strBytes(args[1])
+	switch len(sub) {
+	case 0:
+		panic(cut("strings.Count of the empty string")) // counts runes
+	case 1:
+		return in.countByte(b, sub[0])
+	}
+	n := int64(0)
+	for i := 0; i+len(sub) <= len(b); {
+		if in.truth(in.simpBool(in.containsAt(b, sub, i))) {
+			n++
+			i += len(sub)
+		} else {
+			i++
+		}
+	}
+	return n
+}
+
+func stringsIndex(in *Interp, fn *ssa.Function, args []value) value {
+	b, sub := strBytes(args[0]), strBytes(args[1])
+	for i := 0; i+len(sub) <= len(b); i++ {
+		if in.truth(in.simpBool(in.containsAt(b, sub, i))) {
+			return int64(i)
+		}
+	}
+	return int64(-1)
+}
+
+func stringsLastIndex(in *Interp, fn *ssa.Function, args []value) value {
+	b, sub := strBytes(args[0]), strBytes(args[1])
+	for i := len(b) - len(sub); i >= 0; i-- {
+		if in.truth(in.simpBool(in.containsAt(b, sub, i))) {
+			return int64(i)
+		}
+	}
+	return int64(-1)
+}
+
+func stringsLastIndexByte(in *Interp, fn *ssa.Function, args []value) value {
+	b := strBytes(args[0])
+	for i := len(b) - 1; i >= 0; i-- {
+		if in.truth(in.simpBool(in.tab.Eq(in.intTerm(b[i], 8), in.intTerm(args[1], 8)))) {
+			return int64(i)
+		}
+	}
+	return int64(-1)
+}
+
+func stringsToLower(in *Interp, fn *ssa.Function, args []value) value {
+	if s, ok := args[0].(string); ok {
+		return strings.ToLower(s)
+	}
+	b := strBytes(args[0])
+	out := make([]value, len(b))
+	for i, x := range b {
+		switch xv := x.(type) {
+		case int64:
+			if xv >= 'A' && xv <= 'Z' {
+				out[i] = xv + 32
+			} else {
+				out[i] = xv
+			}
+		case *Term:
+			if !in.truth(in.simpBool(in.tab.Ult(xv, in.tab.Const(8, 0x80)))) {
+				panic(cut("ToLower-symbolic-nonascii"))
+			}
+			isUpper := in.tab.And(in.tab.Ule(in.tab.Const(8, 'A'), xv), in.tab.Ule(xv, in.tab.Const(8, 'Z')))
+			out[i] = in.tab.Ite(isUpper, in.tab.Bin(OAdd, xv, in.tab.Const(8, 32)), xv)
+		}
+	}
+	return mkStr(out)
+}
+
+// EqualFold: exact on ASCII; a symbolic non-ASCII byte on either side is a cut (simple folding
+// of multi-byte runes is not modelled).
+func stringsEqualFold(in *Interp, fn *ssa.Function, args []value) value {
+	if s, ok := args[0].(string); ok {
+		if t, ok := args[1].(string); ok {
+			return strings.EqualFold(s, t)
+		}
+	}
+	a, b := strBytes(args[0]), strBytes(args[1])
+	for _, side := range [][]value{a, b} {
+		for _, x := range side {
+			switch xv := x.(type) {
+			case int64:
+				if xv >= 0x80 {
+					panic(cut("EqualFold-nonascii"))
+				}
+			case *Term:
+				if !in.truth(in.simpBool(in.tab.Ult(xv, in.tab.Const(8, 0x80)))) {
+					panic(cut("EqualFold-symbolic-nonascii"))
+				}
+			}
+		}
+	}
+	if len(a) != len(b) {
+		return false
+	}
+	la := strBytes(stringsToLower(in, nil, []value{mkStr(a)}))
+	lb := strBytes(stringsToLower(in, nil, []value{mkStr(b)}))
+	return in.simpBool(in.strEq(mkStr(la), mkStr(lb)))
+}
+
+func stringsTrimSpace(in *Interp, fn *ssa.Function, args []value) value {
+	if s, ok := args[0].(string); ok {
+		return strings.TrimSpace(s)
+	}
+	b := strBytes(args[0])
+	lo, hi := 0, len(b)
+	for lo < hi && in.isASCIISpaceOrCut(b[lo], "TrimSpace") {
+		lo++
+	}
+	for hi > lo && in.isASCIISpaceOrCut(b[hi-1], "TrimSpace") {
+		hi--
+	}
+	return mkStr(b[lo:hi])
+}
+
 const asciiSpace = " \t\n\v\f\r"
 
 func (in *Interp) isASCIISpaceOrCut(x value, what string) bool {
@@ -672,7 +880,8 @@ func sbWriteRune(in *Interp, fn *ssa.Function, args []value) value {
 	return tuple{int64(len(b)), iface{}}
 }
 
-type replacerData struct{ pairs []string }
+// replacerData is immutable; the pointer makes values comparable (snapshots share it).
+type replacerData struct{ spec *[]string }
 
 func stringsNewReplacer(in *Interp, fn *ssa.Function, args []value) value {
 	var pairs []string
@@ -685,7 +894,7 @@ func stringsNewReplacer(in *Interp, fn *ssa.Function, args []value) value {
 		in.targetPanic("strings.NewReplacer: odd argument count")
 	}
 	cell := new(value)
-	*cell = replacerData{pairs}
+	*cell = replacerData{&pairs}
 	return cell
 }
 
@@ -699,8 +908,9 @@ func stringsReplacerReplace(in *Interp, fn *ssa.Function, args []value) value {
 	if !ok {
 		panic(cut("Replacer of unknown construction"))
 	}
-	for i := 0; i < len(rd.pairs); i += 2 {
-		if rd.pairs[i] == "" {
+	pairs := *rd.spec
+	for i := 0; i < len(pairs); i += 2 {
+		if pairs[i] == "" {
 			panic(cut("Replacer with empty old string"))
 		}
 	}
@@ -709,13 +919,13 @@ func stringsReplacerReplace(in *Interp, fn *ssa.Function, args []value) value {
 	i := 0
 	for i < len(b) {
 		matched := false
-		for k := 0; k < len(rd.pairs); k += 2 {
-			old := strBytes(rd.pairs[k])
+		for k := 0; k < len(pairs); k += 2 {
+			old := strBytes(pairs[k])
 			if i+len(old) > len(b) {
 				continue
 			}
 			if in.truth(in.simpBool(in.containsAt(b, old, i))) {
-				out = append(out, strBytes(rd.pairs[k+1])...)
+				out = append(out, strBytes(pairs[k+1])...)
 				i += len(old)
 				matched = true
 				break
